@@ -57,6 +57,8 @@ KEEP_LOOP_HELPERS = {"librfn/mlog.c"}
 # message queue's operations are analysed as wholes even when one is rebuilt on top of another (receive on top of a peek)
 INLINE_PUBLIC_CALLEES = {"librfn/messageq.c": (),
                          # (the log's writers and readers are the rules' anchors; an accessor added next to them is not)
+                         "librfn/wavheader.c": ("rf_wavheader_decode", "rf_wavheader_encode", "rf_wavheader_get_format", "rf_wavheader_init",
+                                                "rf_wavheader_set_num_frames", "rf_wavheader_tostring", "rf_wavheader_validate"),
                          "librfn/mlog.c": ("vmlog", "vmlog_nice", "mlog", "mlog_nice", "mlog_clear", "mlog_dump", "mlog_get_line")}
 
 _workdir = None
